@@ -3,7 +3,7 @@
    the graph is the set of verified Peer objects (identity, key, addresses), the advertised services
    per key, and the known addresses with who introduced them. *)
 From Coq Require Import ZArith List Bool.
-From IPV8V Require Import lib.PyErr lib.Bytes model.M12_network.
+From IPV8V Require Import lib.PyErr lib.Bytes model.M02_wire model.M12_network.
 Import ListNotations.
 Open Scope Z_scope.
 
@@ -92,17 +92,21 @@ Definition never_returned (n : net) (k : key) : Prop :=
 
 Definition all_queries (qs : list op) : Prop := forallb is_query qs = true.
 
-(* well-formed addresses (what struct.pack accepts) *)
-Definition addr_ok (a : addr) : Prop :=
-  match a with
-  | A4 ip port => 0 <= ip < 256 ^ 4 /\ 0 <= port < 256 ^ 2
-  | A6 ip port => 0 <= ip < 256 ^ 16 /\ 0 <= port < 256 ^ 2
-  end.
-Definition am_ok (m : addrmap) : Prop :=
-  (match am4 m with Some (i, p) => addr_ok (A4 i p) | None => True end) /\
-  (match am6 m with Some (i, p) => addr_ok (A6 i p) | None => True end).
+(* well-formed addresses: what the `address` packer of the wire model accepts (M02_wire.addr_ok:
+   4 / 16 address bytes, port below 65536, host name valid UTF-8 shorter than 65536 bytes) *)
+Definition packable (a : addr) : Prop := addr_ok false a = true.
+Definition opt_packable (o : option addr) : Prop := match o with Some a => packable a | None => True end.
+Definition am_ok (m : addrmap) : Prop := opt_packable (am4 m) /\ opt_packable (am6 m) /\ opt_packable (amd m).
 Definition op_ok (o : op) : Prop :=
   match o with
   | AddVerified _ am | DiscoverAddress _ am _ _ _ | DiscoverServices _ am _ => am_ok am
   | _ => True
   end.
+
+(* what a dict keyed by addresses holds after the addresses `l` were assigned in this order: the keys it
+   had, then the new ones in order of first occurrence *)
+Definition add_key (acc : list addr) (a : addr) : list addr := if mem_addr a acc then acc else acc ++ [a].
+Definition uniq (l : list addr) : list addr := fold_left add_key l [].
+
+(* the bytes of a snapshot holding the addresses `l`: their `address` records (C02 wire model), concatenated *)
+Definition packed (l : list addr) : res bytes := concat_res (map pack_address l).
